@@ -164,3 +164,11 @@ def special_poses():
 def spell(word, k):
     """a case variant of an option string the library compares case-insensitively (method names, frames)"""
     return [word, word.upper(), word.capitalize(), word.lower(), word.swapcase()][int(k) % 5]
+
+
+def numtype(value, k):
+    """The same option value as the number types a caller's code produces: a Python int, or the NumPy integer that np.arange / rng.integers /
+    rng.choice hand out (1 is 1 whichever of them says it)."""
+    if isinstance(value, bool) or not isinstance(value, int):
+        return value
+    return [int, np.int64, int, np.int32, np.intp, np.uint8][k % 6](value)
